@@ -243,6 +243,16 @@ def anonPathsFields : List (String × Conn) → List (List String)
   | (f, v) :: rest => (anonPaths v).map (f :: ·) ++ anonPathsFields rest
 end
 
+mutual
+/-- the members of an anonymous bundle that are not anonymous bundles themselves, each with the path it is given under -/
+def anonMembers : Conn → List (List String × Conn)
+  | .anon fields => anonMembersFields fields
+  | c => [([], c)]
+def anonMembersFields : List (String × Conn) → List (List String × Conn)
+  | [] => []
+  | (f, v) :: rest => (anonMembers v).map (fun x => (f :: x.1, x.2)) ++ anonMembersFields rest
+end
+
 /-- Is the connection bundle-like (for `Pair` members)? -/
 def Conn.bundleLike : Conn → Bool
   | .bundle _ => true
@@ -323,6 +333,25 @@ def toFMod (d : Design) (m : Module) : R FMod := do
         for π in anonPaths cn do
           if !(ports.any (fun x => x.1 == p && π.isPrefixOf x.2.1)) then
             throw s!"{m.name}.{i.name}: bundle port {p} has no member {π}"
+        -- … nor may a member that is a bundle instance (or a reference to a sub-bundle) bring members of its own which the
+        -- port's member of that name does not have
+        for (π, mem) in anonMembers cn do
+          let sub : Option (String × List String) := match mem with
+            | .bundle b => some (b, [])
+            | .bref root p0 => some (root, p0)
+            | _ => none
+          match sub with
+          | none => pure ()
+          | some (b, p0) =>
+            match m.bundles.find? (fun x => x.1 == b) with
+            | none => pure ()
+            | some bd =>
+              let t ← bundleTree d bd.2.1
+              for (lp, _) in leavesOf t do
+                if p0.isPrefixOf lp && p0 != lp then
+                  let full := π ++ lp.drop p0.length
+                  if !(ports.any (fun x => x.1 == p && x.2.1 == full)) then
+                    throw s!"{m.name}.{i.name}: bundle port {p} has no member {full} (of {b})"
       | _, _ => pure ()
     let elems : List (String × Option (Nat ⊕ String)) := match i.kind with
       | .single => [(i.name, none)]
